@@ -366,7 +366,10 @@ fn do_run(rc: &RunCfg<'_>, run: u64) {
     // payload: in half of the runs its Clone impl yields a copy without the stored handles
     SHALLOW.store(u32::from(Rng(mix(rc.seed, run, 11)).chance(1, 2)) | (u32::from(Rng(mix(rc.seed, run, 14)).chance(1, 4)) << 1), Relaxed);
     let trace = Rng(mix(rc.seed, run, 9)).chance(1, 8);
-    let active = trace && Rng(mix(rc.seed, run, 15)).chance(1, 2);
+    // (not in the layout comparison: which dead Weak the backend finds first depends on the
+    // order in which a group's members were destroyed, which legitimately varies with the
+    // layout - the program would no longer behave the same under every layout)
+    let active = trace && Rng(mix(rc.seed, run, 15)).chance(1, 2) && p.mode != Mode::Layouts;
     LOG_TRACE.store(u32::from(trace) + u32::from(active), Relaxed);
     set_log_level(trace);
     if trace {
@@ -632,6 +635,11 @@ fn wait_watch(pid: i32, hang_ms: u64) -> (i32, bool) {
 /// C08 order independence: execute both routes, compare what the common release
 /// sequence destroyed and left behind.
 fn order_pair(pname: &str, seed: u64, run: u64, a: &[Op], b: &[Op], tail: usize, layout_seed: u64, opts: &ExecOpts) -> u64 {
+    // two routes are compared call by call: the program must behave the same on both, so
+    // the log backend stays passive here (as in the layout comparison)
+    if LOG_TRACE.load(Relaxed) == 2 {
+        LOG_TRACE.store(1, Relaxed);
+    }
     let none = Faults::default();
     let head = ctx_head(pname, seed, run, 0, &[layout_seed], &none);
     let oa = execute(&head, Source::Explicit(a), &none, layout_seed, opts);
